@@ -70,6 +70,12 @@ class TermModel:
                     out.add(bb)
             elif c.ruid in self.ma and c.term['arg_tys'] and c.term['arg_tys'][0].startswith('&mut '):
                 out.add(bb)
+            else:
+                # `item(self)` through a fn-pointer / generic Fn parameter: every value a caller passes must advance
+                oid = getattr(body, 'orig_id', body.id)
+                tg = self.prog.resolved_indirect.get((oid, bb)) or getattr(self.prog, 'generic_cb_targets', {}).get((oid, bb))
+                if tg and all(t in self.ma for t in tg) and not getattr(body, 'is_view', False):
+                    out.add(bb)
         return out
 
     def descent_blocks(self, body, scc):
@@ -151,7 +157,7 @@ def rule_loop(tm, bodies):
             if any(p.id == b0.id for p in tm.roles.parse_bodies):
                 for tag in ('shallow', 'deep'):
                     vr = tm.roles.views(tag)
-                    tried += [v for v, p in zip(vr.parse_bodies, tm.roles.parse_bodies) if p.id == b0.id and v is not p]
+                    tried += [v for v in vr.parse_bodies if getattr(v, 'orig_id', v.id) == b0.id and v is not b0]
             else:
                 v = tm.prog.view(b0)
                 if v is not b0:
